@@ -1,6 +1,7 @@
 package main
 
 import (
+	"go/token"
 	"go/types"
 	"sort"
 	"strings"
@@ -54,29 +55,185 @@ type FuncFacts struct {
 	tb    *termBuilder
 	Edges []Edge
 	Facts []Fact
+	// Extra[i]: facts lifted from a new helper whose result edge i tests (inter.go)
+	Extra [][]Fact
+	conv  bool
 }
 
-func factsOf(fn *ssa.Function) *FuncFacts {
-	ff := &FuncFacts{Fn: fn, tb: newTB()}
+var factsMemo = map[*ssa.Function]*FuncFacts{}
+var factsMemoConv = map[*ssa.Function]*FuncFacts{}
+
+func factsOf(fn *ssa.Function) *FuncFacts { return factsOfMode(fn, false) }
+
+// factsOfMode: conv keeps value-changing integer conversions opaque (C09).
+func factsOfMode(fn *ssa.Function, conv bool) *FuncFacts {
+	memo := factsMemo
+	if conv {
+		memo = factsMemoConv
+	}
+	if ff, ok := memo[fn]; ok {
+		return ff
+	}
+	ff := &FuncFacts{Fn: fn, tb: newTB(), conv: conv}
+	ff.tb.keepConv = conv
+	memo[fn] = ff
 	ff.Edges = branchEdges(fn)
 	for _, e := range ff.Edges {
 		ff.Facts = append(ff.Facts, factOf(ff.tb.of(e.If.Cond, 0), e.Truth))
 	}
+	// every comparison edge is listed a second time with its fact read from the other side
+	// (R op' L): how the source orders the operands must not matter to a rule. The copies
+	// keep the (true, false) pairing, so Facts[i^1] is still the other edge of the same If.
+	n := len(ff.Edges)
+	for i := 0; i+1 < n; i += 2 {
+		m0, ok0 := ff.Facts[i].Mirror()
+		m1, ok1 := ff.Facts[i+1].Mirror()
+		if !ok0 && !ok1 {
+			continue
+		}
+		ff.Edges = append(ff.Edges, ff.Edges[i], ff.Edges[i+1])
+		ff.Facts = append(ff.Facts, m0, m1)
+	}
+	ff.Extra = make([][]Fact, len(ff.Edges))
+	for i := 0; i < n; i++ {
+		ff.Extra[i] = edgeHelperFacts(ff.Edges[i], conv)
+	}
 	return ff
 }
 
-func (ff *FuncFacts) Term(v ssa.Value) *Term { return ff.tb.of(v, 0) }
+func newTBMode(conv bool) *termBuilder {
+	tb := newTB()
+	tb.keepConv = conv
+	return tb
+}
+
+// Term builds the term of v in this function's vocabulary; a value that lives in a new
+// helper called from here is expressed through the call's arguments.
+func (ff *FuncFacts) Term(v ssa.Value) *Term {
+	if vf := valueFunc(v); vf != nil && vf != ff.Fn && isNewHelper(vf) {
+		return liftTerm(ff.Fn, vf, factsOfMode(vf, ff.conv).tb.of(v, 0), ff.conv)
+	}
+	return ff.tb.of(v, 0)
+}
 
 // FactsAt returns every fact known to hold whenever control reaches blk
 // (facts of all edges that dominate it).
 func (ff *FuncFacts) FactsAt(blk *ssa.BasicBlock) []Fact {
+	if bf := blk.Parent(); bf != ff.Fn && isNewHelper(bf) {
+		return ff.factsAtForeign(blk)
+	}
 	var out []Fact
 	for i, e := range ff.Edges {
 		if edgeDominates(e, blk) {
 			out = append(out, ff.Facts[i])
+			out = append(out, ff.Extra[i]...)
 		}
 	}
 	return out
+}
+
+// withMirrors adds, for every comparison fact  L op R, the same fact written from the other
+// side (R op' L): how the source happens to order the operands must not matter to a rule.
+func withMirrors(fs []Fact) []Fact {
+	n := len(fs)
+	for i := 0; i < n; i++ {
+		if m, ok := fs[i].Mirror(); ok {
+			fs = append(fs, m)
+		}
+	}
+	return fs
+}
+
+// Mirror returns the comparison read from the right-hand side.
+func (f Fact) Mirror() (Fact, bool) {
+	if !f.IsCmp || f.L == nil || f.R == nil || f.L.String() == f.R.String() {
+		return f, false
+	}
+	var op token.Token
+	switch f.Op {
+	case token.LSS:
+		op = token.GTR
+	case token.GTR:
+		op = token.LSS
+	case token.LEQ:
+		op = token.GEQ
+	case token.GEQ:
+		op = token.LEQ
+	case token.EQL, token.NEQ:
+		op = f.Op
+	default:
+		return f, false
+	}
+	return Fact{IsCmp: true, Op: op, L: f.R, R: f.L}, true
+}
+
+// factsAtForeign: blk lies in a new helper reached from ff.Fn. Known there: the helper's
+// own facts at blk plus, along every call chain, the facts at each call site — all in
+// ff.Fn's vocabulary; with several chains only what they agree on.
+func (ff *FuncFacts) factsAtForeign(blk *ssa.BasicBlock) []Fact {
+	target := blk.Parent()
+	chains := helperChains(ff.Fn, target)
+	if len(chains) == 0 {
+		return nil
+	}
+	var common map[string]Fact
+	var order []string
+	for _, ch := range chains {
+		here := map[string]Fact{}
+		var ord []string
+		add := func(f Fact) {
+			s := f.String()
+			if _, dup := here[s]; !dup {
+				here[s] = f
+				ord = append(ord, s)
+			}
+		}
+		for i, c := range ch {
+			cf := factsOfMode(c.Parent(), ff.conv)
+			for _, f := range cf.FactsAt(c.Block()) {
+				if i == 0 {
+					add(f)
+				} else {
+					add(liftFactAlong(ch[:i], f, ff.conv))
+				}
+			}
+		}
+		for _, f := range factsOfMode(target, ff.conv).FactsAt(blk) {
+			add(liftFactAlong(ch, f, ff.conv))
+		}
+		if common == nil {
+			common, order = here, ord
+		} else {
+			for s := range common {
+				if _, ok := here[s]; !ok {
+					delete(common, s)
+				}
+			}
+		}
+	}
+	var out []Fact
+	for _, s := range order {
+		if f, ok := common[s]; ok {
+			out = append(out, f)
+		}
+	}
+	return out
+}
+
+// liftFactAlong substitutes parameters innermost call first.
+func liftFactAlong(ch []*ssa.Call, f Fact, conv bool) Fact {
+	sub := func(t *Term) *Term {
+		for i := len(ch) - 1; i >= 0; i-- {
+			t = substParams(t, argTerms(newTBMode(conv), ch[i]))
+		}
+		return t
+	}
+	if f.IsCmp {
+		f.L, f.R = sub(f.L), sub(f.R)
+	} else {
+		f.B = sub(f.B)
+	}
+	return f
 }
 
 // FactsOnEdge returns the facts known when control flows from pred to blk:
@@ -86,6 +243,7 @@ func (ff *FuncFacts) FactsOnEdge(pred, blk *ssa.BasicBlock) []Fact {
 	for i, e := range ff.Edges {
 		if e.From == pred && e.To == blk && pred.Succs[0] != pred.Succs[1] {
 			out = append(out, ff.Facts[i])
+			out = append(out, ff.Extra[i]...)
 		}
 	}
 	return out
@@ -178,9 +336,12 @@ const (
 
 // classifyReturn decides whether a return hands back a nil error.
 func classifyReturn(ff *FuncFacts, ret *ssa.Return) RetKind {
-	idx := errResultIndex(ff.Fn)
+	idx := errResultIndex(ret.Parent())
 	if idx < 0 {
 		return RetNoErr
+	}
+	if ret.Parent() != ff.Fn && isNewHelper(ret.Parent()) {
+		return classifyErrValue(factsOf(ret.Parent()), ret.Results[idx], ret.Block(), 0)
 	}
 	return classifyErrValue(ff, ret.Results[idx], ret.Block(), 0)
 }
@@ -197,9 +358,39 @@ func classifyErrValue(ff *FuncFacts, v ssa.Value, at *ssa.BasicBlock, depth int)
 	case *ssa.MakeInterface:
 		return RetErr // a concrete value boxed into error
 	case *ssa.Call:
+		if g := newHelperCallee(x); g != nil {
+			if k := errResultIndex(g); k >= 0 {
+				kinds := map[RetKind]bool{}
+				gf := factsOf(g)
+				for _, r := range Returns1(g) {
+					kinds[classifyErrValue(gf, r.Results[k], r.Block(), depth+1)] = true
+				}
+				if len(kinds) == 1 {
+					for kk := range kinds {
+						return kk
+					}
+				}
+				return RetMaybe
+			}
+		}
 		name := CalleeName(x.Common())
 		if name == "fmt.Errorf" || name == "errors.New" || strings.HasSuffix(name, ".Wrap") || strings.HasSuffix(name, ".Wrapf") {
 			return RetErr
+		}
+	case *ssa.Extract:
+		if c, ok := x.Tuple.(*ssa.Call); ok {
+			if g := newHelperCallee(c); g != nil && x.Index == errResultIndex(g) {
+				kinds := map[RetKind]bool{}
+				gf := factsOf(g)
+				for _, r := range Returns1(g) {
+					kinds[classifyErrValue(gf, r.Results[x.Index], r.Block(), depth+1)] = true
+				}
+				if len(kinds) == 1 {
+					for kk := range kinds {
+						return kk
+					}
+				}
+			}
 		}
 	case *ssa.UnOp:
 		if al, ok := x.X.(*ssa.Alloc); ok {
@@ -256,15 +447,21 @@ func isErrGlobal(v ssa.Value) bool {
 }
 
 // Returns lists the Return instructions of fn.
+// A return that hands back the results of a tail call to a new helper is replaced by that
+// helper's returns (inter.go).
 func Returns(fn *ssa.Function) []*ssa.Return {
 	var out []*ssa.Return
-	for _, b := range fn.Blocks {
-		for _, in := range b.Instrs {
-			if r, ok := in.(*ssa.Return); ok {
-				out = append(out, r)
+	var rec func(f *ssa.Function, d int)
+	rec = func(f *ssa.Function, d int) {
+		for _, r := range Returns1(f) {
+			if h := tailHelper(r); h != nil && h != f && d < maxHelperDepth {
+				rec(h, d+1)
+				continue
 			}
+			out = append(out, r)
 		}
 	}
+	rec(fn, 0)
 	return out
 }
 
@@ -277,16 +474,28 @@ type Site struct {
 }
 
 // CallsIn lists call sites in fn (including go/defer) whose callee name matches.
+// Calls made by new helpers that fn calls count as fn's (Site.Fn is then the helper).
 func CallsIn(fn *ssa.Function, callee string) []Site {
 	var out []Site
-	for _, b := range fn.Blocks {
-		for _, in := range b.Instrs {
-			if c, ok := in.(ssa.CallInstruction); ok {
-				if calleeMatches(CalleeName(c.Common()), callee) {
-					out = append(out, Site{fn, c})
+	for _, f := range funcAndHelpers(fn) {
+		for _, b := range f.Blocks {
+			for _, in := range b.Instrs {
+				if c, ok := in.(ssa.CallInstruction); ok {
+					if calleeMatches(CalleeName(c.Common()), callee) {
+						out = append(out, Site{f, c})
+					}
 				}
 			}
 		}
+	}
+	return out
+}
+
+// AllCallsDeep lists the calls of fn and of the new helpers it reaches.
+func AllCallsDeep(fn *ssa.Function) []ssa.CallInstruction {
+	var out []ssa.CallInstruction
+	for _, f := range funcAndHelpers(fn) {
+		out = append(out, AllCalls(f)...)
 	}
 	return out
 }
@@ -354,29 +563,123 @@ func instrIndex(in ssa.Instruction) int {
 
 // instrDominates: a executes before b on every path reaching b.
 func instrDominates(a, b ssa.Instruction) bool {
+	if a.Parent() != b.Parent() {
+		return instrDominatesCross(a, b)
+	}
 	if a.Block() == b.Block() {
 		return instrIndex(a) < instrIndex(b)
 	}
 	return a.Block().Dominates(b.Block())
 }
 
+// completesThrough: a executes whenever its function (a new helper) returns without error.
+func completesThrough(a ssa.Instruction) bool {
+	f := a.Parent()
+	ff := factsOf(f)
+	for _, r := range Returns1(f) {
+		if classifyReturn(ff, r) == RetErr {
+			continue
+		}
+		if !(a.Block() == r.Block() || a.Block().Dominates(r.Block())) {
+			return false
+		}
+	}
+	return true
+}
+
+// instrDominatesCross: a and b live in different functions, one of them a new helper
+// reached from the other. (A caller is assumed to stop when a helper reports an error.)
+func instrDominatesCross(a, b ssa.Instruction) bool {
+	fa, fb := a.Parent(), b.Parent()
+	if chains := helperChains(fa, fb); len(chains) > 0 {
+		// b inside a helper called from a's function: a must precede every call site
+		for _, ch := range chains {
+			if !instrDominates(a, ch[0]) {
+				return false
+			}
+		}
+		return true
+	}
+	if chains := helperChains(fb, fa); len(chains) > 0 {
+		// a inside a helper: every call chain's first call precedes b, and a always
+		// executes before the helper frames return
+		for _, ch := range chains {
+			if !instrDominates(ch[0], b) || !completesThrough(a) {
+				return false
+			}
+			for _, c := range ch[1:] {
+				if !completesThrough(c) {
+					return false
+				}
+			}
+		}
+		return true
+	}
+	return false
+}
+
 // reachesReturnAvoiding searches forward from just after `from` for a path to
 // a Return (optionally only returns accepted by retOK) that does not execute
 // any instruction for which stop() is true. It returns the blocks of such a
 // path, or nil when every path is intercepted.
+//
+// New helpers (inter.go) are walked through: a call to one intercepts the path when every
+// way through the helper executes a stop instruction; a search that starts inside a new
+// helper continues after its call sites. With a retOK filter (the rule is about successful
+// exits) a helper's certainly-failing returns are not followed — its caller is taken to
+// stop on the error.
 func reachesReturnAvoiding(from ssa.Instruction, stop func(ssa.Instruction) bool, retOK func(*ssa.Return) bool) []*ssa.BasicBlock {
+	ps := &pathSearch{stop: stop, retOK: retOK, passMemo: map[*ssa.Function]int{}}
+	return ps.run(from.Block(), instrIndex(from)+1, 0)
+}
+
+type pathSearch struct {
+	inHelper bool // walking a helper on behalf of a caller: its returns end the sub-search
+	stop     func(ssa.Instruction) bool
+	retOK    func(*ssa.Return) bool
+	passMemo map[*ssa.Function]int // 1: some path through the helper avoids stop, 2: none
+}
+
+// helperPasses: can control enter new helper g and come back without executing a stop?
+func (ps *pathSearch) helperPasses(g *ssa.Function, depth int) bool {
+	if v, ok := ps.passMemo[g]; ok {
+		return v == 1
+	}
+	ps.passMemo[g] = 1 // recursion: assume passable
+	sub := &pathSearch{stop: ps.stop, passMemo: ps.passMemo}
+	if ps.retOK != nil {
+		gf := factsOf(g)
+		sub.retOK = func(r *ssa.Return) bool { return classifyReturn(gf, r) != RetErr }
+	}
+	sub.inHelper = true
+	res := sub.run(g.Blocks[0], 0, depth+1) != nil
+	if res {
+		ps.passMemo[g] = 1
+	} else {
+		ps.passMemo[g] = 2
+	}
+	return res
+}
+
+func (ps *pathSearch) run(b0 *ssa.BasicBlock, start int, depth int) []*ssa.BasicBlock {
 	type item struct {
 		b    *ssa.BasicBlock
 		path []*ssa.BasicBlock
 	}
+	// scan returns: stopped (path intercepted), ret (acceptable return reached)
 	scan := func(b *ssa.BasicBlock, start int) (stopped bool, ret *ssa.Return) {
 		for i := start; i < len(b.Instrs); i++ {
 			in := b.Instrs[i]
-			if stop(in) {
+			if ps.stop(in) {
 				return true, nil
 			}
+			if g := newHelperCallee(in); g != nil && depth < maxHelperDepth {
+				if !ps.helperPasses(g, depth) {
+					return true, nil
+				}
+			}
 			if r, ok := in.(*ssa.Return); ok {
-				if retOK == nil || retOK(r) {
+				if ps.retOK == nil || ps.retOK(r) {
 					return false, r
 				}
 				return true, nil
@@ -387,10 +690,33 @@ func reachesReturnAvoiding(from ssa.Instruction, stop func(ssa.Instruction) bool
 		}
 		return false, nil
 	}
-	b0 := from.Block()
-	stopped, ret := scan(b0, instrIndex(from)+1)
+	finish := func(r *ssa.Return, path []*ssa.BasicBlock) []*ssa.BasicBlock {
+		// a return of a new helper we started in: go on after each call site
+		f := r.Parent()
+		if ps.inHelper || !isNewHelper(f) || depth >= maxHelperDepth {
+			return path
+		}
+		sites := callSitesOfHelper(f)
+		if len(sites) == 0 {
+			return path
+		}
+		if ps.retOK != nil && classifyReturn(factsOf(f), r) == RetErr {
+			return nil
+		}
+		for _, c := range sites {
+			up := &pathSearch{stop: ps.stop, retOK: ps.retOK, passMemo: ps.passMemo}
+			if p := up.run(c.Block(), instrIndex(c)+1, depth+1); p != nil {
+				return append(append([]*ssa.BasicBlock{}, path...), p...)
+			}
+		}
+		return nil
+	}
+	stopped, ret := scan(b0, start)
 	if ret != nil {
-		return []*ssa.BasicBlock{b0}
+		if p := finish(ret, []*ssa.BasicBlock{b0}); p != nil {
+			return p
+		}
+		return nil
 	}
 	if stopped {
 		return nil
@@ -409,7 +735,10 @@ func reachesReturnAvoiding(from ssa.Instruction, stop func(ssa.Instruction) bool
 		seen[it.b] = true
 		stopped, ret := scan(it.b, 0)
 		if ret != nil {
-			return it.path
+			if p := finish(ret, it.path); p != nil {
+				return p
+			}
+			continue
 		}
 		if stopped {
 			continue
@@ -422,6 +751,32 @@ func reachesReturnAvoiding(from ssa.Instruction, stop func(ssa.Instruction) bool
 		}
 	}
 	return nil
+}
+
+var helperSitesMemo = map[*ssa.Function][]*ssa.Call{}
+
+// callSitesOfHelper: the static call sites of new helper g in production code.
+func callSitesOfHelper(g *ssa.Function) []*ssa.Call {
+	if v, ok := helperSitesMemo[g]; ok {
+		return v
+	}
+	var out []*ssa.Call
+	if theProgram != nil {
+		for _, f := range theProgram.OwnFuncs {
+			if !IsProd(f) {
+				continue
+			}
+			for _, b := range f.Blocks {
+				for _, in := range b.Instrs {
+					if c, ok := in.(*ssa.Call); ok && c.Common().StaticCallee() == g {
+						out = append(out, c)
+					}
+				}
+			}
+		}
+	}
+	helperSitesMemo[g] = out
+	return out
 }
 
 // reachable reports whether block `to` can be reached from block `from`.
